@@ -548,6 +548,16 @@ func (s *Scenario) buildWorld(W string, src []byte, image []byte) (*worldPaths, 
 		}
 		old = append(old, 0xEE, 0xEE)
 		must(os.WriteFile(dstAbs, old, 0644))
+	case "image_with_tail": // an earlier, longer build of the same program, or a padded image: begins with the new image
+		tail := pre(1 + int(s.DstPrefillSeed%600))
+		if s.DstPrefillSeed%3 == 0 {
+			tail = make([]byte, 512-len(image)%512) // zero padding up to the next sector
+		}
+		must(os.WriteFile(dstAbs, append(append([]byte(nil), image...), tail...), 0644))
+	case "image_prefix": // an earlier, shorter build: a proper prefix of the new image
+		must(os.WriteFile(dstAbs, append([]byte(nil), image[:len(image)/2]...), 0644))
+	case "same_image": // the output of the previous identical build
+		must(os.WriteFile(dstAbs, append([]byte(nil), image...), 0644))
 	case "ro_file":
 		must(os.WriteFile(dstAbs, pre(10), 0444))
 	case "ro_dir":
